@@ -211,10 +211,22 @@ int main(int argc, char** argv) {
         SU_vector r = iCommutator(a, b);
         expect_vec("iCommutator", r, R, SA * SB);
         SU_vector r2(d); r2 = iCommutator(a, b); expect_same("assign(iCommutator)", r2, r, 0);
+        { // the result may be stored over an operand (same object, or another vector viewing the same user buffer)
+          SU_vector x = a; x = iCommutator(x, b); expect_same("a=iCommutator(a,b)", x, r, 0);
+          SU_vector y = b; y = iCommutator(a, y); expect_same("b=iCommutator(a,b)", y, r, 0);
+          alignas(32) double buf[40]; for (int k = 0; k < d * d; k++) buf[k] = a[k];
+          SU_vector v1(d, buf), v2(d, buf); v1 = iCommutator(v2, b); expect_same("view=iCommutator(view,b)", v1, r, 0);
+          for (int k = 0; k < d * d; k++) buf[k] = b[k];
+          SU_vector w1(d, buf), w2(d, buf); w1 = iCommutator(a, w2); expect_same("view=iCommutator(a,view)", w1, r, 0);
+        }
       } else if (op == "acom") {
         SU_vector r = ACommutator(a, b);
         expect_vec("ACommutator", r, R, SA * SB);
         SU_vector r2(d); r2 = ACommutator(a, b); expect_same("assign(ACommutator)", r2, r, 0);
+        { SU_vector x = a; x = ACommutator(x, b); expect_same("a=ACommutator(a,b)", x, r, 0);
+          SU_vector y = b; y = ACommutator(a, y); expect_same("b=ACommutator(a,b)", y, r, 0);
+          alignas(32) double buf[40]; for (int k = 0; k < d * d; k++) buf[k] = a[k];
+          SU_vector v1(d, buf), v2(d, buf); v1 = ACommutator(v2, b); expect_same("view=ACommutator(view,b)", v1, r, 0); }
       } else if (op == "trace") {
         double t1 = a * b, t2 = SUTrace(a, b);
         double S = SA * SB * d, tol = TOLF * EPS * (S > 0 ? S : 1);
@@ -230,6 +242,9 @@ int main(int argc, char** argv) {
         SU_vector r = a.Evolve(H, t);
         expect_vec("Evolve(H,t)", r, R, S);
         SU_vector r2(d); r2 = a.Evolve(H, t); expect_same("assign(Evolve)", r2, r, 0);
+        { SU_vector x = a; x = x.Evolve(H, t); expect_same("a=a.Evolve(H,t)", x, r, 0);
+          alignas(32) double buf[40]; for (int k = 0; k < d * d; k++) buf[k] = a[k];
+          SU_vector v1(d, buf), v2(d, buf); v1 = v2.Evolve(H, t); expect_same("view=view.Evolve(H,t)", v1, r, 0); }
         std::vector<double> buf(H.GetEvolveBufferSize());
         H.PrepareEvolve(buf.data(), t);
         SU_vector r3 = a.Evolve(buf.data());
